@@ -523,6 +523,20 @@ def val_lt(E, a, b):
         xa, xb = items_of(a), items_of(b)
         if all(isinstance(x, I) for x in xa) and all(isinstance(x, I) for x in xb):
             return bytes_lt(xa, xb)
+    if isinstance(a, Agg) and isinstance(b, Agg):
+        if not a.fields and not b.fields and a.ty == b.ty:
+            return a.variant < b.variant         # C-like enum: derive(PartialOrd) orders by discriminant
+        cands = E.prog.index.get((a.ty, 'Ord', 'cmp')) or E.prog.index.get((a.ty, 'PartialOrd', 'partial_cmp'))
+        if cands:
+            r = E.call_fn(cands[0], [Ref([a], 0), Ref([b], 0)], None)
+            if r.ty == 'Option':
+                r = r.fields[0]
+            return r.variant == -1
+        if a.ty in ('tuple', 'array') and len(a.fields) == len(b.fields):
+            res = False
+            for x, y in reversed(list(zip(a.fields, b.fields))):
+                res = b_or(val_lt(E, x, y), b_and(val_eq(E, x, y), res))
+            return res
     raise ModelGap(f'val_lt {a!r} {b!r}')
 
 
